@@ -1,29 +1,3 @@
-//! Checks over the network crate (through its `verif` hook): C10, C12, C13, C14, C18, C19 and the
-//! network halves of C09 / C15.
-mod c10;
-mod c12;
-mod c13;
-mod c14;
-mod c15;
-mod c18;
-mod c19;
-pub mod netvalues;
-pub mod pipe;
-
 fn main() {
-    let env = common::Env::from_args();
-    let code = match env.property.as_str() {
-        "C10" => c10::main(&env),
-        "C12" => c12::main(&env),
-        "C13" => c13::main(&env),
-        "C14" => c14::main(&env),
-        "C15" => c15::main(&env),
-        "C18" => c18::main(&env),
-        "C19" => c19::main(&env),
-        p => {
-            eprintln!("netprop: unknown property {p}");
-            2
-        }
-    };
-    std::process::exit(code);
+    netprop::engine_main()
 }
